@@ -157,6 +157,7 @@ bool build_check(const std::string& prop, const std::string& tier, CheckSpec& s,
         s.batches.push_back(mk("conc", q ? 40 : 2000, {"G/g++-asm"}, "single", {}, "the same sources built with g++"));
         s.batches.push_back(mk("wkd", q ? 160 : 8000, FAST, "single", {{"focus", 0}}, "WKD-IBE histories with every attribute list in the library's own format in caller memory: a list that differs after the call from what the caller built is state kept in (or written through) a const input"));
         s.batches.push_back(mk("wkd", q ? 40 : 2000, FAST, "duo", {{"focus", 0}, {"maxops", 12}}, "the same as two concurrent caller threads (M-solo: each history's event log equals its log when run alone)"));
+        s.batches.push_back(mk("pairs", q ? 150 : 6000, FAST, "single", {}, "pairing products over long-lived caller records: after every call the records' input members still point where the caller pointed them (state parked in caller-visible records is state between calls)"));
         s.batches.push_back(mk("prim", q ? 60 : 3000, {"A/bmi2-adx", "A/baseline", "As/static-bmi2", "G/g++-asm"}, "single", {{"ops", 200}, {"entry", 1}}, "the same on the assembly replicas with the routines entered directly: the repeat call arrives with other CF/OF and scratch-register contents than the first"));
         s.batches.push_back(mk("prim", q ? 120 : 6000, ALLG, "single", {{"ops", 200}}, "field-arithmetic primitives, every call repeated into a second output object that held other bytes: the result is a function of the operands alone (operands driven into the compare-and-subtract tails, where a path that stores nothing would hand back stale memory)"));
         return true;
